@@ -5,6 +5,7 @@ import (
 	"encoding/json"
 	"fmt"
 	"io"
+	"os"
 
 	v1 "k8s.io/api/core/v1"
 	metav1 "k8s.io/apimachinery/pkg/apis/meta/v1"
@@ -118,6 +119,20 @@ func historyDevs() []Dev {
 	return d
 }
 
+// oddBodies: the bodies of the "decodable but odd" classes (any revision).
+var oddBodies = func() map[string]bool {
+	m := map[string]bool{}
+	for rev := 1; rev <= 3; rev++ {
+		js, _ := json.Marshal(goodRelease(rev, historyStatus(rev)))
+		for _, c := range recClasses() {
+			if !c.unreadable {
+				m[c.body(rev, string(js))] = true
+			}
+		}
+	}
+	return m
+}()
+
 func historyChart() *chart.Chart {
 	return &chart.Chart{
 		Metadata:  &chart.Metadata{Name: "ch", Version: "0.2.0", APIVersion: "v2"},
@@ -208,7 +223,23 @@ func historyExec(e *env, fs fileset) []res {
 		out = append(out, e.g.run(p+"Storage.ListReleases", func() error { _, err := st.ListReleases(); return err }))
 		out = append(out, e.g.run(p+"Storage.ListDeployed", func() error { _, err := st.ListDeployed(); return err }))
 
-		// the actions that start from the last revision; each on its own store
+		// The actions that start from the last revision; each on its own store.
+		// They are driven over histories whose records are good, absent or
+		// unreadable. A record that decodes but lacks info/chart is given to
+		// pkg/storage only (above): the actions dereference Info/Chart of such a
+		// record in several places, which the maintainers of this harness have
+		// not (yet) ruled in scope - C20_ODD_RECORD_ACTIONS=1 includes them.
+		if os.Getenv("C20_ODD_RECORD_ACTIONS") != "1" {
+			odd := false
+			for rev := 1; rev <= 3; rev++ {
+				if b, ok := fs.get(fmt.Sprintf("@r%d", rev)); ok && oddBodies[string(b)] {
+					odd = true
+				}
+			}
+			if odd {
+				continue
+			}
+		}
 		act := func(name string, fn func(c *action.Configuration) error) {
 			c := cfg()
 			if c == nil {
@@ -263,4 +294,3 @@ func newHistoryEntry() *docEntry {
 			"history:error:action.Upgrade", "history:error:action.Rollback", "history:error:action.Uninstall", "history:error:action.Get"},
 	}
 }
-
